@@ -1,6 +1,6 @@
 (* The specification side of C20, written without looking at the generated
    terms: which configurations must be refused. *)
-From Coq Require Import List NArith Bool.
+From Coq Require Import List NArith ZArith Bool.
 From WV Require Import Lib.PyBytes Gen.GenAdjust Model.Adjust.
 Import ListNotations.
 Local Open Scope N_scope.
@@ -35,16 +35,18 @@ Definition spec_known_headers : list str :=
   [s_forwarded; xfwd [98;121]; xfwd [102;111;114]; xfwd [104;111;115;116]; xfwd [112;111;114;116];
    xfwd [112;114;111;116;111]].
 
-(* truth-table form over the six atoms read by the code *)
-Definition proxy_spec (tp_none tpc_none hdrs_nonempty has_unknown has_forwarded has_other : bool) : bool :=
+(* truth-table form over the seven atoms read by the code *)
+Definition proxy_spec (tp_none tpc_none count_below hdrs_nonempty has_unknown has_forwarded has_other : bool) : bool :=
   (negb tpc_none && tp_none)                 (* trusted_proxy_count without trusted_proxy *)
+  || (negb tpc_none && count_below)          (* trusted_proxy_count below 1 *)
   || (hdrs_nonempty && tp_none)              (* trusted_proxy_headers without trusted_proxy *)
   || (hdrs_nonempty && has_unknown)          (* unknown header kind *)
   || (hdrs_nonempty && has_forwarded && has_other). (* Forwarded together with X-Forwarded-* *)
 
-(* the same over the configured values *)
-Definition proxy_conflict (tp_none tpc_none : bool) (hdrs : list str) : Prop :=
-  (tpc_none = false /\ tp_none = true)
+(* the same over the configured values: count = the given trusted_proxy_count, if any *)
+Definition proxy_conflict (tp_none : bool) (count : option Z) (hdrs : list str) : Prop :=
+  (count <> None /\ tp_none = true)
+  \/ (exists z, count = Some z /\ (z < 1)%Z)
   \/ (hdrs <> [] /\ tp_none = true)
   \/ (exists h, In h hdrs /\ ~ In (lower_latin1 h) spec_known_headers)
   \/ (In s_forwarded (map lower_latin1 hdrs) /\ exists h, In h hdrs /\ lower_latin1 h <> s_forwarded).
